@@ -10,7 +10,8 @@ def run(c):
     c.rule = ("same bucket generator as C05 (namespaces x groups x metrics x fair keys, weights 1..1000 incl. unknown/zero -> clamped, fixed "
               "per-metric budgets at {0.5,0.75,1,2}x size and size-1, budgets around sum(size)*{0.1..1.5}, sum-1 and 0..30, 25% flat "
               "hierarchies), mode mix det 50% (test selector floor(len/sf), RoundF=floor; half of them with equally sized rows), quota 25% "
-              "(SampleQuota configured as in calcHostMetricBudgets, real roundSampleFactor), rand 25%. One case in five is shaped for isolation BELOW the metric level (flat hierarchy, SampleKeys on, the metric that sorts "
+              "(SampleQuota configured as in calcHostMetricBudgets, real roundSampleFactor), rand 25%. Builtin namespaces/groups (negative ids -5 / -4,-2,-3) appear with configured weights next to positive-id "
+              "ones (each at most once per bucket). One case in five is shaped for isolation BELOW the metric level (flat hierarchy, SampleKeys on, the metric that sorts "
               "first has no fair keys, the others fair-key lists of different lengths with one flooding value next to small ones); one metric in three "
               "known to Meta also gets 1-3 rows that belong to ANOTHER metric (own Key.Metric and carried MetricMeta with other namespace/group/weight/"
               "fair keys, as ingestion statuses accounted to a user metric) — the model resolves the meta from the carried one and meta storage. "
@@ -57,6 +58,8 @@ META = {
              "all_fit_nothing_sampled, bucket_fits_nothing_sampled); larger ratio => not smaller factor (factor_monotone_in_ratio); quota mode: "
              "quota = floor(size*budget/(denom*sumSize)), monotone in size, sum <= budget share (quota_proportional, quota_monotone, "
              "quota_sum_le_budget; with the x2 bonus of calcHostMetricBudgets: host_budget_cases, sampled_row_gets_no_bonus, host_budgets_le_twice_share); "
+             "group and namespace weights are looked up for every non-zero id, builtin negative ids included (weight_lookup_ignores_sign; the seeded "
+             "guard `ID > 0` is Variant.posIds with the decide witness positive_id_guard_starves_builtin_group); "
              "a partition is sampled with the options of the metric its rows are ACCOUNTED to, whichever row sorts first "
              "(resolve_uses_accounting_metric, metric_partition_uses_accounting_meta); a fair-key value within budget/#values is kept whole "
              "(fair_key_within_share_kept, the byKey instance of fits_share_kept); "
